@@ -42,6 +42,9 @@ def _sql(st: str) -> str:
     if k == "S":
         return f"create schema s{tl}"
     if k == "V":
+        if "." in tl:
+            v, c = tl.split(".")
+            return f"create view vw{v} comment = 'c{c}' as select 1 as x"
         return f"create view vw{tl} as select 1 as x"
     if k == "B":
         if tl.endswith("q"):     # the name written as a quoted identifier (upper case: the same database as unquoted)
@@ -65,6 +68,11 @@ def _sql(st: str) -> str:
                 f"when not matched then insert (k, v) values (src.k, src.v)")
     if k == "q":
         return "select 1"
+    if k == "O":
+        t, c = tl.split(".")
+        return f"create or replace table t{t} (k int, v int) comment = 'c{c}'"
+    if k == "Z":
+        return "set v18 = 1"            # a statement fakesnow answers without any durable engine call
     if k == "b":
         return "begin"
     if k == "c":
@@ -83,6 +91,10 @@ def _mh(hist: list[str]) -> str:
             out.append("e" + s[1:])
         elif s[0] == "p":
             out.append("i" + s[1:])
+        elif s[0] == "O":
+            out.append("T" + s[1:] + ".-")      # CREATE OR REPLACE TABLE … COMMENT: a new empty table with that comment
+        elif s[0] == "Z":
+            out.append("q")
         else:
             out.append(s)
     return ";".join(out)
@@ -241,8 +253,10 @@ def _child_dump(d: str, schema_opt: bool, outfd: int) -> None:
             rows = sorted(cur.fetchall())
             tl.append([int(name[1:]), None if cmt is None else str(cmt), lens.get(name), [list(r) for r in rows]])
         out["tables"] = tl
-        cur.execute("select table_name from information_schema.views where table_catalog = 'DB1'")
-        out["views"] = sorted(int(r[0][2:]) for r in cur.fetchall())
+        cur.execute("select table_name, comment from information_schema.tables where table_catalog = 'DB1' and table_type = 'VIEW' "
+                    "and table_schema not in ('information_schema')")
+        # a commented view is shown as v + 1000 * (c + 1), like the model's dump
+        out["views"] = sorted(int(n[2:]) + (1000 * (int(str(c)[1:]) + 1) if c is not None else 0) for n, c in cur.fetchall())
     os.write(outfd, json.dumps(out).encode())
 
 
@@ -512,6 +526,8 @@ CORE = [
     ["T0.3.-", "D0", "T0.-.-", "q"],                         # drop + re-create (side tables keep the old comment: C09's business)
     ["T0.-.-", "b", "i0.1.1", "i0.2.2"],                     # exits with the transaction still open
     ["B1q", "S2", "T0.-.-", "i0.1.1"],                       # CREATE DATABASE "DB2" (quoted): the same file as unquoted
+    ["T0.-.-", "M0.3", "O0.5", "Z", "i0.1.1", "Z"],         # comment 'draft', replaced with 'final', then no-op statements
+    ["T0.2.-", "V1.7", "V2", "i0.1.1"],                      # a view created with COMMENT, a table with a comment, a plain view
 ]
 
 
@@ -643,7 +659,7 @@ def run(chk) -> None:
     # same process: patch block left by an exception (connection kept alive), re-patch on the same path, drop the old object
     for ri in range(2 if quick else 6):
         jobs1.append({"hi": -1, "mode": "repatch",
-                      "spec": {"h1": ["N11.1", "T0.-.-", f"i0.1.{ri}"], "h2": ["N11.1", f"i0.2.{ri}", "T1.3.-", "i1.5.5"],
+                      "spec": {"h1": ["N11.1", "T0.-.-", "M0.3", "O0.5", f"i0.1.{ri}"], "h2": ["N11.1", "Z", f"i0.2.{ri}", "Z", "T1.3.-", "i1.5.5", "V3.4"],
                                "exit": "kill" if ri % 2 else "clean"}})
     for form in ("none", "nonearg", "empty", "rel", "pathobj", "slash"):
         jobs1.append({"hi": 0, "hist": hists[0] if form != "nonearg" else hists[2], "mode": "memory", "form": form})
@@ -704,7 +720,7 @@ def run(chk) -> None:
         for (j, r), rep in zip(conflicts, creps):
             _check_conflict(chk, j, r, rep)
     if repatches:
-        rreps = common.batch(["\t".join(["crash", "run2", ";".join(j["spec"]["h1"]), "-", ";".join(j["spec"]["h2"]), "-"]) for j, _ in repatches])
+        rreps = common.batch(["\t".join(["crash", "run2", _mh(j["spec"]["h1"]), "-", _mh(j["spec"]["h2"]), "-"]) for j, _ in repatches])
         for (j, r), rep in zip(repatches, rreps):
             _check_repatch(chk, j, r, rep)
     all_jobs = [(j, res1[id(j)]) for j in jobs1 if j["mode"] not in ("memory", "conflict", "repatch")] + list(zip(order2, res2_flat))
@@ -830,6 +846,13 @@ def _check_point(chk, job, r, rep) -> None:
                       case, broken="C18_committed_survive (recover)")
         return
     killed = os.WIFSIGNALED(r["status"]) and os.WTERMSIG(r["status"]) == signal.SIGKILL
+    if r["err"] and not r["err"].startswith("Infra"):
+        # the history's own fakesnow operations raised (none of the generated statements may fail): an observation about the code
+        done = max(0, len(r["calls"]) - 1)
+        chk.violation(f"history {job['hist']} ({mode}): statement #{done} `{job['hist'][done] if done < len(job['hist']) else '?'}` raised "
+                      f"{r['err'][:300]} - every statement of the history is valid and succeeds when the statements before it behaved",
+                      case, broken="C18 histories run to completion (a failing statement of a valid history)")
+        return
     if mode in ("clean", "raise", "raise-inside") and (not r["exited"] or r["err"] or r["status"] != 0):
         raise common.Infra(f"child did not finish history {job['hist']}: status={r['status']} err={r['err']} calls={r['calls']}")
     if mode == "killend" and not killed:
@@ -893,7 +916,7 @@ def replay(chk, case) -> None:
     if case["kind"] == "repatch":
         job = {"mode": "repatch", "spec": case["spec"]}
         r = _run_repatch(job)
-        rep = common.batch(["\t".join(["crash", "run2", ";".join(case["spec"]["h1"]), "-", ";".join(case["spec"]["h2"]), "-"])])[0]
+        rep = common.batch(["\t".join(["crash", "run2", _mh(case["spec"]["h1"]), "-", _mh(case["spec"]["h2"]), "-"])])[0]
         _check_repatch(chk, job, r, rep)
         return
     if case["kind"] == "conflict":
